@@ -115,6 +115,11 @@ class Body:
         self._pdom = None
         self._defs = None
         self._reach = {}
+        # only set on bodies synthesised by loop_as_closure(): canonical names / origin terminals of locals that play the
+        # role of the closure's parameters and captures, and the block at which one iteration starts
+        self.alias = {}
+        self.origin_alias = {}
+        self.iteration_start = 0
 
     def __repr__(self):
         return "<body %s>" % self.npath
@@ -513,6 +518,8 @@ class Origins:
                     k = pe["idx"]
                     nm = ups[k]["name"] if k < len(ups) else "?"
                     return {("upvar", k, nm)}
+        if l in body.origin_alias:
+            return {body.origin_alias[l]}
         if l in seen:
             return out
         seen = seen | {l}
@@ -586,6 +593,7 @@ class Origins:
 
 class Program:
     def __init__(self, facts_dir, files=None):
+        self._virtual = {}
         self.dir = facts_dir
         self.crates = {}
         self.bodies = {}          # normalised path -> Body (bin crate bodies prefixed uniquely by rustc)
@@ -650,8 +658,14 @@ class Program:
 
     # ----------------------------------------------------------- lookup
     def body(self, name):
-        """exact normalised path"""
-        return self.bodies.get(name)
+        """exact normalised path; for `F::{closure#0}` that does not exist, the body of F's single element loop viewed as that closure"""
+        b = self.bodies.get(name)
+        if b is None and name and name.endswith("::{closure#0}"):
+            if name not in self._virtual:
+                parent = self.bodies.get(name[:-len("::{closure#0}")])
+                self._virtual[name] = loop_as_closure(self, parent) if parent is not None else None
+            return self._virtual[name]
+        return b
 
     def find(self, pattern):
         """bodies whose normalised path matches the regex (search)"""
@@ -906,3 +920,99 @@ def operand_str(body, op):
     if op["k"] in ("copy", "move"):
         return place_str(body, op["place"])
     return "?"
+
+
+def loop_as_closure(prog, body):
+    """`for x in ITER { BODY }` viewed as `ITER.for_each(|x| BODY)`: a synthetic closure-like body made of the function's prologue and ONE
+    iteration of its single outermost element loop (back edges lead to a return, the exhausted-iterator arm is unreachable, the
+    initial values of loop-carried flags are forgotten).  Locals are named like a closure's parameters and captures:
+    the element -> arg2, loop-carried bool flags / `&mut` parameters / self -> captures arg1.k (reported as upvars by Origins).
+    Returns None unless the function has exactly one outermost loop driven by `Iterator::next`."""
+    import copy
+    loops = body.loops()
+    outer = [(h, L) for h, L in loops.items() if not any(h in L2 and h2 != h for h2, L2 in loops.items())]
+    if len(outer) != 1:
+        return None
+    h, L = outer[0]
+    nx = [c for c in body.calls() if c.bb == h and (c.callee or "").endswith("Iterator::next")]
+    if len(nx) != 1:
+        return None
+    sw = nx[0].t.get("target")
+    if sw is None or body.blocks[sw]["term"]["k"] != "switch":
+        return None
+    t = body.blocks[sw]["term"]
+    some = [tb for v, tb in t["targets"] if v == 1]
+    none = [tb for v, tb in t["targets"] if v == 0]
+    some_tgt = some[0] if some else t["otherwise"]
+    j = copy.deepcopy(body.j)
+    blocks = j["blocks"]
+    R, U = len(blocks), len(blocks) + 1
+    blocks.append({"stmts": [], "term": {"k": "return"}})
+    blocks.append({"stmts": [], "term": {"k": "unreachable"}})
+
+    def retarget(term, frm, to):
+        if term.get("target") == frm:
+            term["target"] = to
+        if term["k"] == "switch":
+            term["targets"] = [[v, (to if tb == frm else tb)] for v, tb in term["targets"]]
+            if term["otherwise"] == frm:
+                term["otherwise"] = to
+    for bb in L:
+        if bb != h and bb != sw:
+            retarget(blocks[bb]["term"], h, R)
+    # exhausted iterator: not part of an iteration
+    swt = blocks[sw]["term"]
+    for v, tb in list(swt["targets"]):
+        if v == 0:
+            retarget(swt, tb, U)
+    if not none and some:
+        swt["otherwise"] = U
+    # loop-carried bool flags: defined both outside and inside the loop
+    flags = []
+    for i, lc in enumerate(body.locals):
+        if lc.get("ty") == "bool":
+            ds = [d for d in body.defs.get(i, []) if d[0] == "assign"]
+            if any(d[1] in L for d in ds) and any(d[1] not in L for d in ds):
+                flags.append(i)
+    for bb in range(len(body.blocks)):
+        if bb not in L:
+            blocks[bb]["stmts"] = [st for st in blocks[bb]["stmts"] if not (st.get("k") == "assign" and not st["dst"]["p"] and st["dst"]["l"] in flags)]
+    j["path"] = body.path + "::{closure#0}"
+    j["kind"] = "Closure"
+    j["root"] = body.path
+    j["parent"] = body.path
+    ups = []
+    alias, oalias = {}, {}
+    for f in flags:
+        nm = body.locals[f].get("name") or "flag"
+        alias[f] = "arg1.%d" % len(ups)
+        oalias[f] = ("upvar", len(ups), nm)
+        ups.append({"name": nm, "by_ref": True, "mutable": True, "ty": "bool"})
+    for p in range(1, body.arg_count + 1):
+        nm = body.locals[p].get("name") or ("self" if p == 1 else "arg%d" % p)
+        alias[p] = "arg1.%d" % len(ups)
+        oalias[p] = ("upvar", len(ups), nm)
+        ups.append({"name": nm, "by_ref": True, "mutable": body.locals[p]["ty"].startswith("&mut"), "ty": body.locals[p]["ty"]})
+    j["upvars"] = ups
+    j["arg_count"] = 0
+    v = Body(j, body.crate)
+    # the element: the local that receives the payload of `next()`'s Some
+    opt = nx[0].t["dst"]["l"]
+    for st in body.blocks[some_tgt]["stmts"]:
+        if st.get("k") == "assign" and not st["dst"]["p"] and st["rv"]["k"] == "use" and st["rv"]["op"]["k"] in ("copy", "move"):
+            pl = st["rv"]["op"]["place"]
+            ks = [pe["k"] for pe in pl["p"]]
+            if pl["l"] == opt and ks == ["downcast", "field"]:
+                alias[st["dst"]["l"]] = "arg2"
+                oalias[st["dst"]["l"]] = ("param", 2, "")
+            elif pl["l"] == opt and ks == ["downcast", "field", "field"]:
+                # the element tuple is destructured in place: `for (a, b) in ..`
+                alias[st["dst"]["l"]] = "arg2.%s" % pl["p"][2]["idx"]
+                oalias[st["dst"]["l"]] = ("param", 2, str(pl["p"][2]["idx"]))
+    if not any(a == "arg2" or a.startswith("arg2.") for a in alias.values()):
+        return None
+    v.alias = alias
+    v.origin_alias = oalias
+    v.iteration_start = some_tgt
+    v.virtual_of = body.npath
+    return v
